@@ -19,7 +19,7 @@ ASSUMPTIONS = unitkit.UNITS_STUB_TEXT + [
     "division assumes a non-zero divisor on that path (the unchanged library divides by the value in ** of an uncertain quantity and by interval ends in /; a zero there is a ZeroDivisionError on every tree and outside the property)",
 ]
 OUTSIDE = ['sharing that a caller sets up explicitly by passing one Magnitude/BaseUnits object to two Quantity constructors', 'the Python type (float vs Decimal) of an unchanged value']
-BOUNDS = {'quick': 'operator list x operand-unit pairs below, one in-place mutation round in each direction', 'thorough': 'same with more unit pairs'}
+BOUNDS = {'quick': 'operator list x operand-unit pairs below, one in-place mutation round in each direction; aliased operands (a+a, (a+b)+a, a and -a) for 7 unit pairs; neutral-element operations on % operands; derived quantities', 'thorough': 'same with more unit pairs'}
 EXHAUSTIVE = {'quick': True, 'thorough': True}
 PRE = '''
 import numpy as np
